@@ -163,6 +163,14 @@ def rule_mask(ctx):
               '%s:%d' % (w.module.rel, inner.lineno))
     # builder side
     app = p.func('formulas/builder.py', 'AstBuilder.append')
+    # the registration may live in a private helper of append
+    from ..util import with_helpers
+    for g_ in with_helpers(ctx, app):
+        if any(isinstance(n, ast.Call) and call_name(n) == 'get' and n.args and
+               isinstance(n.args[0], ast.Constant) and
+               n.args[0].value == 'extra_inputs' for n in own_nodes(g_)):
+            app = g_
+            break
     rr.instances += 1
     extra_names = set()
     for n in own_nodes(app):
